@@ -13,6 +13,12 @@ pub use inner::*;
 pub(crate) static BIGNUMBER_1: Lazy<BigNumber> = Lazy::new(|| BigNumber::from_u32(1).unwrap());
 pub(crate) static BIGNUMBER_2: Lazy<BigNumber> = Lazy::new(|| BigNumber::from_u32(2).unwrap());
 
+/// `-?[0-9]+` for radix 10, `-?[0-9a-fA-F]+` for radix 16: the only texts the parsers accept
+pub(crate) fn is_numeral(s: &str, radix: u32) -> bool {
+    let digits = s.strip_prefix('-').unwrap_or(s);
+    !digits.is_empty() && digits.chars().all(|c| c.is_ascii() && c.is_digit(radix))
+}
+
 impl BigNumber {
     pub fn generate_prime_in_range(
         size_bits: usize,
